@@ -32,7 +32,7 @@ GLUE = {
     "C15": ["harness key: an instrumented OneRttKey with symbolic limits stands in for the AEAD (A-aead); ApplicationSpace calling encrypt_packet for every 1-RTT packet is glue"],
     "C16": ["bounded one-step container obligations cover histories whose container never exceeds the stated K"],
     "C18": ["A-aead: seal/open/HMAC replaced by a harness-side recording / keyed stand-in; aws_lc_rs::constant_time::verify_slices_are_equal (FFI) is stubbed by an equality model",
-            "not under contract: the stream packet codec, control/datagram encoders (round trips timed out), path::secret::map reaction to control packets, stream::recv::State::on_cleartext_stream_packet"],
+            "not under contract: the stream packet codec, control/datagram encoders (round trips timed out), path::secret::map internals (lookups, request_handshake, evict: assumed callees of the layer-X handler job), stream::recv::State::on_cleartext_stream_packet"],
     "C19": ["A-atomics: linearizability of Mutex / fetch_update / fetch_max is assumed, the sequential contract is what is proved",
             "A-bitvec-shift_end: bitvec 1.x BitSlice::shift_end is replaced (kani::stub) by a word-level model over the same 14-word storage ('bit i moves to i+n, vacated bits are zero'); assumed dependency contract, compared with the real function only natively (897 distances x 200 contents), not by the verifier"],
 }
